@@ -3,7 +3,10 @@
 package main
 
 import (
+	"time"
+
 	"flag"
+	"github.com/relab/hotstuff/internal/latency"
 	"math/rand"
 
 	"github.com/relab/hotstuff"
@@ -29,7 +32,21 @@ func c17Line(o *ndjson, bf int, pos []int) {
 	th := 0
 	for _, id := range ids {
 		// every replica builds its own Tree from the shared configuration
-		t := tree.NewSimple(id, bf, append([]hotstuff.ID{}, ids...))
+		// (built as the orchestration does it: plain, with a tree-height wait time, or with an aggregation wait time computed
+		// from a latency matrix -- the relations of the tree must not depend on that)
+		var t *tree.Tree
+		switch c17Mode % 3 {
+		case 0:
+			t = tree.NewSimple(id, bf, append([]hotstuff.ID{}, ids...))
+		case 1:
+			t = tree.NewDelayed(id, tree.DelayTypeTreeHeight, bf, latency.Matrix{}, append([]hotstuff.ID{}, ids...), time.Millisecond)
+		default:
+			locs := make([]string, len(ids))
+			for i := range locs {
+				locs[i] = c17Locations[i%len(c17Locations)]
+			}
+			t = tree.NewDelayed(id, tree.DelayTypeAggregation, bf, latency.MatrixFrom(locs), append([]hotstuff.ID{}, ids...), time.Millisecond)
+		}
 		parent, has := t.Parent()
 		views = append(views, obj{
 			"id": int(id), "hasParent": has, "parent": int(parent),
@@ -39,8 +56,12 @@ func c17Line(o *ndjson, bf int, pos []int) {
 		})
 		th = t.TreeHeight()
 	}
-	o.emit(obj{"n": len(pos), "bf": bf, "pos": pos, "views": views, "treeHeight": th})
+	o.emit(obj{"n": len(pos), "bf": bf, "pos": pos, "views": views, "treeHeight": th, "built": c17Mode % 3})
+	c17Mode++
 }
+
+var c17Mode = 0
+var c17Locations = []string{"Adelaide", "Albany", "Alblasserdam", "Albuquerque", "Algiers", "Amsterdam", "Ankara", "Antwerp", "Oslo", "Tokyo", "Lima"}
 
 func permutations(n int, f func([]int)) {
 	p := make([]int, n)
